@@ -23,6 +23,7 @@ import time
 from vf import c17_lib as L
 from vf import c17_work as W
 from vf.common import Ctx
+from vf.common import HarnessError
 from vf.common import pmap
 
 LEVEL = 'translation_validation'
@@ -62,7 +63,7 @@ def _stage(ctx: Ctx, name: str, tasks: list, total: dict,
         if 'failing' in res:
             extra.extend(res['failing'])
     if done < len(tasks):
-        ctx.cap(f'{name}: time cap {budget:.0f}s reached after {done} of '
+        ctx.cap(f'{name}: time cap {budget}s reached after {done} of '
                 f'{len(tasks)} slices of the canonical order')
     W.merge(total, part)
     total['samples'].extend(
@@ -93,6 +94,9 @@ def run(ctx: Ctx) -> None:
              translator_libraries=list(libs))
     reg = L.registry()
     info = L.registry_info()
+    missing = [k for k in W.REDUCED_RT if k not in reg]
+    if missing:
+        raise HarnessError(f'reduced alphabet names unknown gates: {missing}')
 
     # ------------------------------------------------------------ A
     tasks = [('rt1', n, seed, c, 8) for n in (3, 2, 1) for c in range(8)]
@@ -100,13 +104,17 @@ def run(ctx: Ctx) -> None:
     failing = _stage(ctx, 'roundtrip-single-ops', tasks, total)
     excluded = tuple(failing)
     keys = W.rt_keys(excluded)
+    # two operations: 1 and 2 qubits always complete (both parameter
+    # variants); 3 qubits under a time cap (quick: generic parameters only)
     tasks = []
-    for n in (1, 2, 3):
+    for n in (1, 2):
         P = L.placed_ops(n, keys)
-        both = (n <= 2) or not quick
-        tasks += [('rt2', n, i, excluded, both, seed) for i in range(len(P))]
-    _stage(ctx, 'roundtrip-two-ops', tasks, total,
-           budget=30 if quick else 300)
+        tasks += [('rt2', n, i, excluded, True, seed) for i in range(len(P))]
+    _stage(ctx, 'roundtrip-two-ops-1-2-qubits', tasks, total)
+    P = L.placed_ops(3, keys)
+    tasks = [('rt2', 3, i, excluded, not quick, seed) for i in range(len(P))]
+    _stage(ctx, 'roundtrip-two-ops-3-qubits', tasks, total,
+           budget=30 if quick else 240)
     if not quick:
         tasks = []
         P = L.placed_ops(1, keys)
@@ -119,7 +127,7 @@ def run(ctx: Ctx) -> None:
         P = L.placed_ops(2, keys)
         tasks += [('rt3', 2, i, j, 'full', excluded, seed)
                   for i in range(len(P)) for j in range(len(P))]
-        _stage(ctx, 'roundtrip-three-ops', tasks, total, budget=540,
+        _stage(ctx, 'roundtrip-three-ops', tasks, total, budget=420,
                chunksize=8)
     ctx.part(
         'roundtrip-alphabet', gates_with_spelling=len(reg),
@@ -130,7 +138,8 @@ def run(ctx: Ctx) -> None:
     rt_cases = total['evals']
 
     # ------------------------------------------------------------ B
-    tasks = [('num',), ('misc',), ('shadow',)] + [('gd1', i, 16) for i in range(16)]
+    tasks = [('num',), ('misc',), ('shadow',), ('e01', FULL_LEAVES)]
+    tasks += [('gd1', i, 16) for i in range(16)]
     for lay in W.LAYOUTS:
         for creg in (('none', 'last') if quick
                      else ('none', 'first', 'middle', 'last')):
@@ -146,7 +155,7 @@ def run(ctx: Ctx) -> None:
         nA = len(W.seq_alphabet(lay, seed, False))
         tasks += [('b2', lay, 2, i, False, seed) for i in range(nA)]
     _stage(ctx, 'programs-two-statements', tasks, total,
-           budget=10 if quick else 120)
+           budget=15 if quick else 120)
     if not quick:
         tasks = []
         for lay in W.LAYOUTS[2:]:
@@ -156,10 +165,9 @@ def run(ctx: Ctx) -> None:
 
     leaves = QUICK_LEAVES if quick else FULL_LEAVES
     nO = len(L.operands(list(leaves)))
-    tasks = [('e01', FULL_LEAVES)]
-    tasks += [('e2', leaves, ai) for ai in range(nO)]
-    _stage(ctx, 'programs-expressions', tasks, total,
-           budget=20 if quick else 300)
+    tasks = [('e2', leaves, ai) for ai in range(nO)]
+    _stage(ctx, 'programs-expressions-depth-2', tasks, total,
+           budget=20 if quick else 240)
 
     nch = 8
     tasks = [('gd2', k, m, quick, c, nch) for k, m in W.gd2_tasks()
@@ -167,7 +175,7 @@ def run(ctx: Ctx) -> None:
     tasks += [('gd3', ii, k2, m2, quick, c, nch)
               for ii, k2, m2 in W.gd3_tasks() for c in range(nch)]
     _stage(ctx, 'programs-gate-definitions', tasks, total,
-           budget=10 if quick else 120)
+           budget=None if quick else 120)
     prog_cases = total['evals'] - rt_cases
 
     # ------------------------------------------------------------ C
@@ -177,13 +185,16 @@ def run(ctx: Ctx) -> None:
     tasks += [('tr1', lib, reg[k]['nq'], k, (), seed) for lib in libs
               for k in sorted(reg) if reg[k]['nq'] > 3]
     tasks += [('trq', name, seed) for name in L.qiskit_std_gates()]
+    _stage(ctx, 'translators-single-ops', tasks, total,
+           budget=None if quick else 120)
     # pairs: quick = reduced alphabet on 3 qubits; thorough = full, 2 qubits
     tag, n2 = ('reduced', 3) if quick else ('full', 2)
     k2 = [k for k in ukeys if (tag == 'full' or k in W.REDUCED_RT)]
     P = L.placed_ops(n2, k2)
-    tasks += [('tr2', lib, n2, i, tag, excluded, seed)
-              for lib in libs for i in range(len(P))]
-    _stage(ctx, 'translators', tasks, total, budget=15 if quick else 240)
+    tasks = [('tr2', lib, n2, i, tag, excluded, seed)
+             for lib in libs for i in range(len(P))]
+    _stage(ctx, 'translators-two-ops', tasks, total,
+           budget=15 if quick else 240)
 
     # un-judged observation (outside the statement: not part of the unitary)
     try:
@@ -224,7 +235,7 @@ def run(ctx: Ctx) -> None:
         'per reason in skipped_by_rule): any intermediate value not finite '
         'or >1e6 in magnitude, division by |x|<1e-12, ln(x<=0), sqrt(x<0), '
         'negative base with non-integer exponent, 0 to a non-positive '
-        'power, tan within 1e-6 of a pole. A disagreement is re-run and '
+        'power, tan where |cos|<1e-3. A disagreement is re-run and '
         'minimised (statements/definitions dropped, sub-expressions tried, '
         'single operations tried) before it is reported.'
     )
